@@ -290,7 +290,8 @@ private:
             entries = 1u << this->_info._bits_per_pixel;
         }
 
-		this->_palette.resize( entries, rgba8_pixel_t(0,0,0,0) );
+        // the pixel data can hold any index of the bit depth: entries the file does not define are black
+        this->_palette.resize( (std::max)( entries, 1 << this->_info._bits_per_pixel ), rgba8_pixel_t(0,0,0,0) );
 
         for( int i = 0; i < entries; ++i )
         {
